@@ -195,6 +195,169 @@ theorem approximateBezier_safe (fuel : Nat) (pts : List (Pos P)) (h1 : 1 ≤ pts
 
 end Bezier
 
+/-! ### fuel of the Bezier flattening
+
+The loop pops a polygon, emits it when `bezier_is_flat_enough`, otherwise replaces it by its two halves. Whether a
+polygon is flat enough is arithmetic; what is structural is the bookkeeping: if a *finite subdivision tree* exists
+for the control polygon (`SubdivTree pts n`: `n` nodes, every leaf flat enough), then `n` rounds suffice, whatever the
+scratch buffers hold. The halves are those computed on zeroed scratch vectors — by `bezierSubdivide_agree` they do not
+depend on the scratch contents. -/
+
+section Fuel
+variable {P : Type} [Scalar P]
+
+/-- zeroed scratch vector. -/
+def zeros (n : Nat) : List (Pos P) := List.replicate n Pos.zero
+
+/-- a finite subdivision tree with `n` nodes whose leaves are all flat enough. -/
+inductive SubdivTree : List (Pos P) → Nat → Prop
+  | leaf {x : List (Pos P)} : bezierIsFlatEnough x = true → SubdivTree x 1
+  | node {x l2 r2 m2 : List (Pos P)} {a b : Nat} : bezierIsFlatEnough x = false →
+      bezierSubdivide x (zeros x.length) (zeros x.length) (zeros x.length) = .ok (l2, r2, m2) →
+      SubdivTree (l2.take x.length) a → SubdivTree (r2.take x.length) b → SubdivTree x (1 + a + b)
+
+theorem SubdivTree.pos {x : List (Pos P)} {n : Nat} (h : SubdivTree x n) : 1 ≤ n := by
+  cases h <;> omega
+
+/-- the polygons on the stack have subdivision trees with `n` nodes in total. -/
+inductive StackCost : List (List (Pos P)) → Nat → Prop
+  | nil : StackCost [] 0
+  | cons {x : List (Pos P)} {rest : List (List (Pos P))} {n m : Nat} :
+      SubdivTree x n → StackCost rest m → StackCost (x :: rest) (n + m)
+
+/-- **structural fuel bound of the flattening loop**: `n` rounds suffice when the stacked polygons have
+subdivision trees with `n` nodes in total. -/
+theorem bsplineLoop_fuel (p : Nat) (hp : 1 ≤ p) : ∀ (fuel : Nat) (stack free : List (List (Pos P)))
+    (b : BezierBuffers P) (n : Nat), StackCost stack n → n ≤ fuel →
+    (∀ x ∈ stack, x.length = p) → (∀ x ∈ free, x.length = p) → b.Big p →
+    ∃ r, bsplineLoop p fuel { stack := stack, free := free, bufs := b } = .ok r := by
+  intro fuel
+  induction fuel with
+  | zero =>
+    intro stack free b n hc hn _ _ _
+    cases hc with
+    | nil => exact ⟨_, rfl⟩
+    | cons hx _ => have := hx.pos; omega
+  | succ fuel ih =>
+    intro stack free b n hc hn hst hfr hb
+    cases hc with
+    | nil => exact ⟨_, rfl⟩
+    | @cons parent rest n1 m htree hrestc =>
+      have hpl : parent.length = p := hst parent (by simp)
+      have hrest : ∀ x ∈ rest, x.length = p := fun x hx => hst x (by simp [hx])
+      obtain ⟨b1, b2, b3, b4⟩ := hb
+      cases htree with
+      | leaf hflat =>
+        obtain ⟨piece, l2, r2, m2, e1, g1, g2, g3⟩ :=
+          bezierApproximate_ok parent b.left b.right b.midpoints (by omega) (by omega) (by omega) (by omega)
+        obtain ⟨r, hr⟩ := ih rest (parent :: free)
+          { b with left := l2, right := r2, midpoints := m2 } m hrestc (by omega) hrest
+          (fun x hx => by
+            rcases List.mem_cons.mp hx with h | h
+            · rw [h]; exact hpl
+            · exact hfr x h)
+          ⟨by simp only; omega, by simp only; omega, by simp only; omega, b4⟩
+        simp only [bsplineLoop, hflat, if_true, e1, Outcome.ok_bind, hr]
+        exact ⟨_, rfl⟩
+      | @node _ zl zr zm a c hflat hsub hta htc =>
+        have main : ∀ (rc : List (Pos P)) (fr2 : List (List (Pos P))), rc.length = p →
+            (∀ x ∈ fr2, x.length = p) →
+            ∃ r, (do let x ← bezierSubdivide parent b.leftChild rc b.midpoints
+                     let s ← sliceTo x.1 p
+                     let parent ← copyFromSlice parent s
+                     bsplineLoop p fuel ⟨parent :: x.2.1 :: rest, fr2,
+                       { b with leftChild := x.1, midpoints := x.2.2 }⟩) = .ok r := by
+          intro rc fr2 hrc hfr2
+          have hz : (zeros parent.length : List (Pos P)).length = parent.length := by simp [zeros]
+          obtain ⟨lc2, rc2, m2, zl', zr', zm', e1, e2, g1, g2, g3, _, _, _, tl, tr⟩ :=
+            bezierSubdivide_agree parent b.leftChild rc b.midpoints (zeros parent.length) (zeros parent.length)
+              (zeros parent.length) (by omega) (by omega) (by omega) (by omega) (by omega) (by omega) (by omega)
+          rw [hsub] at e2
+          cases e2
+          have hrc2 : rc2 = zr.take parent.length := by
+            rw [← tr, List.take_of_length_le (by omega)]
+          have s1 := sliceTo_eq lc2 p (by omega)
+          have c1 : copyFromSlice parent (lc2.take p) = .ok (lc2.take p) := by
+            simp [copyFromSlice, hpl]; omega
+          have hcost : StackCost (lc2.take p :: rc2 :: rest) (a + (c + m)) := by
+            refine StackCost.cons ?_ (StackCost.cons ?_ hrestc)
+            · rw [← hpl, tl]; exact hta
+            · rw [hrc2]; exact htc
+          obtain ⟨r, hr⟩ := ih (lc2.take p :: rc2 :: rest) fr2
+            { b with leftChild := lc2, midpoints := m2 } _ hcost (by omega)
+            (fun x hx => by
+              rcases List.mem_cons.mp hx with h | h
+              · rw [h]; simp; omega
+              · rcases List.mem_cons.mp h with h | h
+                · rw [h]; omega
+                · exact hrest x h)
+            hfr2
+            ⟨b1, b2, by simp only; omega, by simp only; omega⟩
+          simp only [e1, s1, c1, Outcome.ok_bind]
+          exact ⟨r, hr⟩
+        simp only [bsplineLoop, hflat, Bool.false_eq_true, if_false]
+        cases free with
+        | nil => exact main _ [] (by simp) (by simp)
+        | cons f fr => exact main f fr (hfr f (by simp)) (fun x hx => hfr x (by simp [hx]))
+
+/-- **`bezier_fuel_suffices` (structural part)**: if the control polygon has a finite subdivision tree with `n`
+nodes, `approximate_bezier` with fuel `≥ n` returns a value — no fuel exhaustion, no panic — on all well-formed
+scratch buffers. -/
+theorem approximateBezier_fuel_suffices (fuel : Nat) (pts : List (Pos P)) (h1 : 1 ≤ pts.length) (n : Nat)
+    (htree : SubdivTree pts n) (hn : n ≤ fuel) (b : BezierBuffers P) (hb : b.WF) :
+    ∃ r, approximateBezier fuel pts b = .ok r := by
+  have hw := BezierBuffers.extendExact_wf b pts.length hb
+  have hlen := BezierBuffers.extendExact_len b pts.length
+  have big : (b.extendExact pts.length).Big pts.length := by
+    obtain ⟨w1, w2, w3⟩ := hw
+    exact ⟨hlen, by omega, by omega, by omega⟩
+  obtain ⟨r, hr⟩ := bsplineLoop_fuel pts.length h1 fuel [pts] [] (b.extendExact pts.length) (n + 0)
+    (StackCost.cons htree StackCost.nil) (by omega)
+    (fun x hx => by simp at hx; rw [hx]) (fun x hx => by simp at hx) big
+  unfold approximateBezier approximateBspline
+  have hu := usub_eq pts.length 1 h1
+  have hg := getI_eq pts (pts.length - 1) (by omega)
+  simp only [hr, hu, hg, Outcome.ok_bind, Outcome.pure_eq_ok]
+  exact ⟨_, rfl⟩
+
+/-- "after at most `k` rounds of halving every piece is flat enough". -/
+def FlatAfter : Nat → List (Pos P) → Prop
+  | 0, x => bezierIsFlatEnough x = true
+  | k + 1, x => bezierIsFlatEnough x = true ∨
+      ∃ l2 r2 m2, bezierSubdivide x (zeros x.length) (zeros x.length) (zeros x.length) = .ok (l2, r2, m2) ∧
+        FlatAfter k (l2.take x.length) ∧ FlatAfter k (r2.take x.length)
+
+theorem FlatAfter.tree : ∀ (k : Nat) (x : List (Pos P)), FlatAfter k x → ∃ n, n ≤ 2 ^ (k + 1) - 1 ∧ SubdivTree x n := by
+  intro k
+  induction k with
+  | zero => intro x h; exact ⟨1, by simp, SubdivTree.leaf h⟩
+  | succ k ih =>
+    intro x h
+    have hpow : 2 ^ (k + 1 + 1) = 2 * 2 ^ (k + 1) := by rw [Nat.pow_succ]; omega
+    have hpos : 1 ≤ 2 ^ (k + 1) := Nat.one_le_two_pow
+    by_cases hflat : bezierIsFlatEnough x = true
+    · exact ⟨1, by omega, SubdivTree.leaf hflat⟩
+    · rcases h with h | ⟨l2, r2, m2, hs, ha, hb⟩
+      · exact absurd h hflat
+      · obtain ⟨a, hale, hta⟩ := ih _ ha
+        obtain ⟨c, hcle, htc⟩ := ih _ hb
+        have hflat' : bezierIsFlatEnough x = false := by
+          cases h : bezierIsFlatEnough x
+          · rfl
+          · exact absurd h hflat
+        exact ⟨1 + a + c, by omega, SubdivTree.node hflat' hs hta htc⟩
+
+/-- **`bezier_fuel_suffices`**: if every piece is flat enough after at most `k` halvings, fuel `2^(k+1) − 1` suffices.
+That such a `k` exists (second differences quarter at each halving, so `k ≈ log₄(|Δ²| / 0.25)` under the decoder's
+coordinate bound) is a fact about the arithmetic — a hypothesis here, not proved for IEEE. -/
+theorem bezier_fuel_suffices (fuel k : Nat) (pts : List (Pos P)) (h1 : 1 ≤ pts.length) (hk : FlatAfter k pts)
+    (hf : 2 ^ (k + 1) - 1 ≤ fuel) (b : BezierBuffers P) (hb : b.WF) :
+    ∃ r, approximateBezier fuel pts b = .ok r := by
+  obtain ⟨n, hn, ht⟩ := FlatAfter.tree k pts hk
+  exact approximateBezier_fuel_suffices fuel pts h1 n ht (by omega) b hb
+
+end Fuel
+
 /-! ### Catmull, circular arc, sub-path dispatch -/
 
 section Path
